@@ -44,7 +44,7 @@ CHECKS = {
                 text="the reset path is proved: _ConnectionFairy._reset leaves no open transaction for reset_on_return rollback/commit (or was told, under a call-site precondition, that the transaction is already reset) and DefaultDialect.reset_isolation_level restores the engine-wide level; DefaultDialect._set_connection_characteristics schedules exactly one reset finalizer per call behind those already pending (none when the call is refused); _finalize_fairy (end of a checkout, explicit or by the garbage collector; sync dialects, non-detached) runs the reset, invalidates the record when the reset fails with an Exception, checks the record in exactly once and ignores stale gc callbacks; ghost txn_open / iso_level per DBAPI connection. Bounded complement: all pool histories on a fake DBAPI incl. multi-call / engine-level execution options.",
                 note="assumed driver contracts (do_rollback/do_commit/_assert_and_set_isolation_level); _finalize_fairy, checkin and Connection.close only in the bounded complement; server-side state outside"),
     "C26": dict(level="proof", technique=PROOF_TECH, design="DESIGN.md §5 C26",
-                text="the _ConnectionRecord layer is proved against a ghost 'closed' flag per DBAPI connection: __connect leaves no half-open record when the creator fails, invalidate/close/__close close what they drop, get_connection never hands out a closed connection nor one that predates a pool-wide or soft invalidation (it is closed and replaced by a fresh one; on failure the record holds nothing), checkin runs every finalizer and returns the record exactly once (never on a double check-in); _checkin_failed (failed checkout) empties the record and hands it back once; _finalize_fairy checks a finished checkout in exactly once (shared with C24); QueuePool._do_get gives its overflow claim back when the creator fails with ANY exception class (shared with C25). Bounded complement: a fault of four exception classes (DBAPI error, disconnect, plain Exception, BaseException) at every DBAPI call position of every pool history.",
+                text="the _ConnectionRecord layer is proved against a ghost 'closed' flag per DBAPI connection: __connect leaves no half-open record when the creator fails, invalidate/close/__close close what they drop, get_connection never hands out a closed connection nor one that predates a pool-wide or soft invalidation (it is closed and replaced by a fresh one; on failure the record holds nothing), checkin runs every finalizer and returns the record exactly once (never on a double check-in); _checkin_failed (failed checkout) empties the record and hands it back once; _finalize_fairy checks a finished checkout in exactly once (shared with C24); _ConnectionFairy._checkout (pre-ping / checkout-event retry loop) hands out only a live connection that is the record's and on which no disconnect was detected (ghost flag set by the assumed pre-ping / listener contracts); QueuePool._do_get gives its overflow claim back when the creator fails with ANY exception class (shared with C25). Bounded complement: a fault of four exception classes (DBAPI error, disconnect, plain Exception, BaseException) at every DBAPI call position of every pool history.",
                 note="assumed externals (_invoke_creator, _close_connection, _return_conn); event hooks do not raise; checkout/_finalize_fairy/pre-ping retry loop bounded only"),
     "C27": dict(level="proof", technique=PROOF_TECH, design="DESIGN.md §5 C27",
                 text="Connection._handle_dbapi_exception is proved on every exit (it never returns): the per-call flags are reset; an error classified as a disconnect (dialect, exit exception, or handle_error listener) leaves the Connection without a DBAPI connection (invalidated) and the pool is told only together with that; an ordinary error invalidates nothing. Connection.invalidate, _revalidate_connection (an invalidated connection gets a fresh DBAPI connection only when no transaction is pending; a closed one never) and the closed / invalidated properties are proved against their definitions. The end of life of a root transaction is proved too (RootTransaction._close_impl, _do_commit, _deactivate_from_connection, 148 obligations over all paths incl. the DBAPI rollback/commit raising): it is deactivated and `connection._transaction is not self` on every exit of rollback/close, so an invalidated connection never keeps a dead transaction that would block reconnecting. Bounded complement: a disconnect / ordinary error injected at every DBAPI call position of every history on a fake DBAPI, 4 handle_error listener modes.",
